@@ -8,6 +8,7 @@
 mod proto;
 mod rng;
 mod gen;
+mod shapes;
 include!("props_gen.rs");
 
 use proto::Toks;
